@@ -14,6 +14,12 @@ Driver for C13.
              Additionally every line of the text that contains the marker `Zq7Zq7` (which the harness puts into every line of every
              comment it attaches) must be blank-or-`--`-prefixed (`comment-as-code`).
   DIFF     = the export threw for a design the generator considers valid.
+             `name-lost`: a name carried by an object of the exported circuit (`n <kind> <name>` lines: pins, entities, instance
+             names, clock and reset pins, named signals/constants) has no trace in the text, i.e. no declared identifier at the
+             expected kind of position equals `formatDuplicateName (initialName kind name) k` for any attempt `k` (model functions).
+  DIFF     = … or the set of files below the scratch directory is not exactly {design.vhd}; or (split export, one case in three)
+             the files are not exactly one `<name>.vhd` per entity / package of the single-file export, or one of them does not
+             hold exactly that unit; or an object of the circuit carries a name the generator never requested (`nx`).
 `comment` cases: calls of the four comment formatters of the real `DefaultCodeFormatting`.
   DIFF     = the model (`C13/Comments.lean`) writes a different text.
   PROPFAIL = a line of the text the implementation wrote is neither blank nor a `--` comment line (`comment-as-code`).
@@ -49,6 +55,11 @@ structure Stats where
   markerLines : Nat := 0            -- exported lines carrying the comment marker that were checked
   commentsAttached : List (String × Nat) := []
   formatterKinds : List (String × Nat) := []
+  namesExpected : List (String × Nat) := []      -- per kind: names carried by circuit objects
+  namesTraced : List (String × Nat) := []        -- per kind: … found at the expected kind of position
+  filesSeen : Nat := 0
+  splitExports : Nat := 0
+  splitFiles : Nat := 0
 
 def bump (h : List (String × Nat)) (k : String) (n : Nat := 1) : List (String × Nat) :=
   match h.find? (·.1 == k) with
@@ -83,6 +94,12 @@ structure Case where
   lines : Array String := #[]
   exc : Option String := none
   comments : Array (String × String) := #[]          -- export: where, text
+  expected : Array (String × String) := #[]          -- export: kind, name carried by a circuit object
+  notRequested : Array (String × String) := #[]
+  files : Array String := #[]                        -- every regular file below the scratch directory
+  split : Bool := false
+  splitExc : Option String := none
+  splitFiles : Array (String × Array String) := #[]  -- path, lines
   calls : Array (String × Nat × String × String × String) := #[]   -- formatter kind, indentation, name, comment, output
 
 def hexVal (c : Char) : Nat :=
@@ -144,6 +161,39 @@ def finishAlloc (c : Case) (st : Stats) : IO Stats := do
     idx := idx + 1
   return st
 
+/-- is `ident` what the allocator makes of `initial` (some attempt of `formatDuplicateName`, model function)? -/
+def derivedFrom (initial : Name) (ident : String) : Bool :=
+  let i := bytes ident
+  if i == initial then true
+  else if i.length > initial.length + 1 && i.take (initial.length + 1) == initial ++ [95] then
+    match (nameToString (i.drop (initial.length + 1))).toNat? with
+    | some n => n ≥ 2 && formatDuplicateName initial (n - 1) == i
+    | none => false
+  else false
+
+def allSigTypes : List SigType := [.entityInput, .entityOutput, .childEntityInput, .childEntityOutput, .registerInput, .registerOutput,
+  .attributedSignal, .localSignal, .localVariable, .constant]
+
+/-- (position kinds, initial names) at which a name of the given circuit-object kind must show up -/
+def traceSpec (kind : String) (name : Name) : List String × List Name :=
+  match kind with
+  | "pin" => (["port"], [initialName .ioPin name])
+  | "ent" => (["entity"], [initialName .entity name])
+  | "inst" => (["inst"], [initialName .instance name])
+  | "clk" => (["port", "signal"], [initialName .clock name])
+  | "rst" => (["port", "signal"], [initialName .reset name])
+  | "sig" => (["port", "signal", "variable", "constant"], allSigTypes.map fun t => initialName (.signal t) name)
+  | "const" => (["constant", "port", "signal", "variable"], allSigTypes.map fun t => initialName (.signal t) name)
+  | "area" => (["proc", "block"], [initialName (.process true) name, initialName (.process false) name, initialName .block name])
+  | _ => ([], [])
+
+def traced (declared : List (String × String)) (kind : String) (name : String) : Bool :=
+  let (positions, initials) := traceSpec kind (bytes name)
+  declared.any fun (k, ident) => positions.contains k && initials.any fun i => derivedFrom i ident
+
+/-- kinds whose trace is required (the exporter has no legitimate way to drop them); the others are counted only -/
+def hardKinds : List String := ["pin", "ent", "inst", "clk", "rst", "sig", "area"]
+
 def finishExport (c : Case) (st : Stats) : IO Stats := do
   let mut st := { st with exportCases := st.exportCases + 1 }
   for (pos, n) in c.names do
@@ -153,7 +203,47 @@ def finishExport (c : Case) (st : Stats) : IO Stats := do
     emit "DIFF" c.id s!"what=export-exception text={e}"
     return { st with diffs := st.diffs + 1, exportExceptions := st.exportExceptions + 1 }
   | none =>
+    -- files: exactly the single file we asked for
+    st := { st with filesSeen := st.filesSeen + c.files.size }
+    if c.files.toList != ["design.vhd"] then
+      emit "DIFF" c.id s!"what=files expected=[design.vhd] found={c.files.toList}"
+      st := { st with diffs := st.diffs + 1 }
+    for (k, n) in c.notRequested do
+      emit "DIFF" c.id s!"what=name-not-requested kind={k} name={n} (an object of the circuit carries a name the generator did not give it)"
+      st := { st with diffs := st.diffs + 1 }
     let rep := Vhdl.checkFile c.lines
+    -- every name carried by a circuit object must leave its trace
+    if rep.parsed then
+      let mut lost := 0
+      for (k, n) in c.expected do
+        st := { st with namesExpected := bump st.namesExpected k, ops := st.ops + 1 }
+        if traced rep.declared k n then st := { st with namesTraced := bump st.namesTraced k }
+        else if hardKinds.contains k then
+          lost := lost + 1
+          st := { st with propfails := st.propfails + 1, problems := bump st.problems "name-lost" }
+          if lost ≤ 3 then
+            emit "PROPFAIL" c.id s!"what=name-lost sig=name-lost:{k} kind={k} name={n} detail=[no declared identifier at a {(traceSpec k []).1} position is derived from this name]"
+      -- split export: one file per entity / package, each holding exactly that unit
+      if c.split then
+        st := { st with splitExports := st.splitExports + 1, splitFiles := st.splitFiles + c.splitFiles.size }
+        match c.splitExc with
+        | some e =>
+          emit "DIFF" c.id s!"what=split-export-exception text={e}"
+          st := { st with diffs := st.diffs + 1 }
+        | none =>
+          let unitsOf (d : List (String × String)) := (d.filter fun (k, _) => k == "entity" || k == "package").map (·.2)
+          let want := (unitsOf rep.declared).map (· ++ ".vhd")
+          let have_ := c.splitFiles.toList.map (·.1)
+          let srt (l : List String) := (l.toArray.qsort (· < ·)).toList
+          if srt want != srt have_ then
+            emit "DIFF" c.id s!"what=split-files expected={srt want} found={srt have_}"
+            st := { st with diffs := st.diffs + 1 }
+          for (path, lines) in c.splitFiles do
+            let r2 := Vhdl.checkFile lines
+            let us := unitsOf r2.declared
+            if !r2.parsed || us.map (· ++ ".vhd") != [path] then
+              emit "DIFF" c.id s!"what=split-file-content file={path} units={us} parsed={r2.parsed} problems={(r2.problems.take 2).map (·.detail)}"
+              st := { st with diffs := st.diffs + 1 }
     st := { st with tokens := st.tokens + rep.tokens, identifiers := st.identifiers + rep.identifiers, ops := st.ops + rep.identifiers,
                     units := st.units + rep.units, processes := st.processes + rep.processes, instances := st.instances + rep.instances,
                     blocks := st.blocks + rep.blocks, components := st.components + rep.components,
@@ -227,6 +317,10 @@ partial def loop (h : IO.FS.Stream) (c : Case) (st : Stats) : IO Stats := do
   let line := (line.dropEndWhile (fun ch => ch == '\n' || ch == '\r')).toString
   if line.startsWith "v " || line == "v" then
     loop h { c with lines := c.lines.push (line.drop 2).toString } st
+  else if line.startsWith "w " || line == "w" then
+    let sf := c.splitFiles
+    let sf := if sf.size == 0 then sf else sf.modify (sf.size - 1) fun (p, ls) => (p, ls.push (line.drop 2).toString)
+    loop h { c with splitFiles := sf } st
   else
     let toks := (line.splitOn " ").filter (· != "")
     match toks with
@@ -246,11 +340,16 @@ partial def loop (h : IO.FS.Stream) (c : Case) (st : Stats) : IO Stats := do
         IO.println s!"DIFF case={c.id} what=protocol line={line}"
         loop h c { st with diffs := st.diffs + 1 }
     | ["u", pos, n] => loop h { c with names := c.names.push (pos, n) } st
+    | ["n", k, n] => loop h { c with expected := c.expected.push (k, if n == "-" then "" else n) } st
+    | ["nx", k, n] => loop h { c with notRequested := c.notRequested.push (k, n) } st
+    | ["split"] => loop h { c with split := true } st
+    | "gx" :: rest => loop h { c with split := true, splitExc := some (" ".intercalate rest) } st
+    | ["g", path] => loop h { c with splitFiles := c.splitFiles.push (path, #[]) } st
     | ["c", w, hx] => loop h { c with comments := c.comments.push (w, unhex hx) } st
     | ["k", kind, ind, n, cm, out] =>
       loop h { c with calls := c.calls.push (kind, ind.toNat?.getD 0, unhex n, unhex cm, unhex out) } st
     | "x" :: rest => loop h { c with exc := some (" ".intercalate rest) } st
-    | "f" :: _ => loop h c st
+    | "f" :: rest => loop h { c with files := c.files.push (" ".intercalate rest) } st
     | ["end"] =>
       let st ← finish c st
       loop h {} st
@@ -261,4 +360,4 @@ def main : IO Unit := do
   let missing := reserved2008.filter fun w => !Gatery.Gen.keywordTable.contains w
   let extra := Gatery.Gen.keywordTable.filter fun w => !reserved2008.contains w
   let q (l : List String) := "[" ++ ",".intercalate (l.map fun s => s!"\"{s}\"") ++ "]"
-  IO.println s!"SUMMARY \{\"cases\":{st.cases},\"alloc_cases\":{st.allocCases},\"export_cases\":{st.exportCases},\"ops\":{st.ops},\"diffs\":{st.diffs},\"propfails\":{st.propfails},\"alloc_requests\":{st.requests},\"alloc_malformed\":{st.malformed},\"alloc_renamed\":{st.suffixed},\"export_exceptions\":{st.exportExceptions},\"vhdl_tokens\":{st.tokens},\"vhdl_identifiers\":{st.identifiers},\"vhdl_units\":{st.units},\"vhdl_processes\":{st.processes},\"vhdl_instances\":{st.instances},\"vhdl_blocks\":{st.blocks},\"vhdl_components\":{st.components},\"vhdl_assignments\":{st.assignments},\"comment_formatter_calls\":{st.commentCalls},\"comment_formatter_lines\":{st.commentLines},\"exported_comment_lines_checked\":{st.markerLines},\"hist\":\{\"alloc_kinds\":{histJson st.kinds},\"name_positions\":{histJson st.positions},\"name_classes\":{histJson st.nameClasses},\"problems\":{histJson st.problems},\"comments_attached\":{histJson st.commentsAttached},\"formatter_kinds\":{histJson st.formatterKinds}},\"keyword_table_size\":{Gatery.Gen.keywordTable.length},\"reserved2008_size\":{reserved2008.length},\"reserved_words_missing_from_table\":{q missing},\"table_entries_not_reserved\":{q extra}}"
+  IO.println s!"SUMMARY \{\"cases\":{st.cases},\"alloc_cases\":{st.allocCases},\"export_cases\":{st.exportCases},\"ops\":{st.ops},\"diffs\":{st.diffs},\"propfails\":{st.propfails},\"alloc_requests\":{st.requests},\"alloc_malformed\":{st.malformed},\"alloc_renamed\":{st.suffixed},\"export_exceptions\":{st.exportExceptions},\"vhdl_tokens\":{st.tokens},\"vhdl_identifiers\":{st.identifiers},\"vhdl_units\":{st.units},\"vhdl_processes\":{st.processes},\"vhdl_instances\":{st.instances},\"vhdl_blocks\":{st.blocks},\"vhdl_components\":{st.components},\"vhdl_assignments\":{st.assignments},\"files_seen\":{st.filesSeen},\"split_exports\":{st.splitExports},\"split_files\":{st.splitFiles},\"comment_formatter_calls\":{st.commentCalls},\"comment_formatter_lines\":{st.commentLines},\"exported_comment_lines_checked\":{st.markerLines},\"hist\":\{\"alloc_kinds\":{histJson st.kinds},\"name_positions\":{histJson st.positions},\"name_classes\":{histJson st.nameClasses},\"problems\":{histJson st.problems},\"comments_attached\":{histJson st.commentsAttached},\"circuit_names_expected\":{histJson st.namesExpected},\"circuit_names_traced\":{histJson st.namesTraced},\"formatter_kinds\":{histJson st.formatterKinds}},\"keyword_table_size\":{Gatery.Gen.keywordTable.length},\"reserved2008_size\":{reserved2008.length},\"reserved_words_missing_from_table\":{q missing},\"table_entries_not_reserved\":{q extra}}"
